@@ -670,6 +670,55 @@ theorem cookie_first_cookie_wins (name v : Bytes) (pre rest : List (Bytes × Byt
     simp only [List.cons_append, cookieValue, if_neg hn]
     exact ih (fun c hc => h c (List.mem_cons_of_mem _ hc))
 
+/-! ## `lb_policy` in a Caddyfile
+
+`parseLbPolicy` is `caddyfile.UnmarshalModule` on a dispenser standing on the policy name: the
+dispenser as a cursor over (text, line) tokens, every policy's `UnmarshalCaddyfile`,
+`loadFallbackPolicy`. -/
+
+/-- **the weights are configured in the order written**: `weighted_round_robin w₁ … wₙ` on one line
+    gives `Weights = [w₁, …, wₙ]` — the i-th argument is the weight of the i-th upstream, each read by
+    `strconv.Atoi` and not negative -/
+theorem caddyfile_weights_in_order (dur : Bytes → Option Int) (l fuel : Nat) (args : List Bytes) (ws : List Int)
+    (hne : args ≠ []) (hb : ∀ a ∈ args, a ≠ lbrace) (hw : weightsOf args = some ws) :
+    parseSel dur (fuel + 1) (⟨str "weighted_round_robin", l⟩ :: args.map (fun a => ⟨a, l⟩)) = .ok [.wrr ws] ∧
+    ws.length = args.length ∧
+    ∀ (i : Nat) (a : Bytes), args[i]? = some a → ∃ w, ws[i]? = some w ∧ C16.atoi a = some w ∧ 0 ≤ w := by
+  refine ⟨?_, weightsOf_spec args ws hw⟩
+  have hk : simpleKind (str "weighted_round_robin") = none := by decide
+  have hr := remainingArgs_same_line l 0 args [] ⟨str "weighted_round_robin", l⟩
+    ((⟨str "weighted_round_robin", l⟩ :: args.map (fun a => (⟨a, l⟩ : Tok))).length + 2) hb rfl (by simp; omega)
+  simp only [List.nil_append, List.length_nil, Nat.zero_add, List.singleton_append] at hr
+  unfold parseSel
+  simp only [hk]
+  have hnext : (Disp.mk (⟨str "weighted_round_robin", l⟩ :: args.map (fun a => (⟨a, l⟩ : Tok))) 0 0).next.2
+      = ⟨⟨str "weighted_round_robin", l⟩ :: args.map (fun a => (⟨a, l⟩ : Tok)), 1, 0⟩ := by
+    simp [Disp.next]
+  rw [if_pos trivial, hnext, hr]
+  cases args with
+  | nil => exact absurd rfl hne
+  | cons a rest => simp [hw]
+
+/-- a weight that is negative, not a number, or no weight at all is a configuration error -/
+theorem caddyfile_bad_weights_rejected (dur : Bytes → Option Int) (l fuel : Nat) (args : List Bytes)
+    (hb : ∀ a ∈ args, a ≠ lbrace) (hw : args = [] ∨ weightsOf args = none) :
+    parseSel dur (fuel + 1) (⟨str "weighted_round_robin", l⟩ :: args.map (fun a => ⟨a, l⟩)) = .err := by
+  have hk : simpleKind (str "weighted_round_robin") = none := by decide
+  have hr := remainingArgs_same_line l 0 args [] ⟨str "weighted_round_robin", l⟩
+    ((⟨str "weighted_round_robin", l⟩ :: args.map (fun a => (⟨a, l⟩ : Tok))).length + 2) hb rfl (by simp; omega)
+  simp only [List.nil_append, List.length_nil, Nat.zero_add, List.singleton_append] at hr
+  unfold parseSel
+  simp only [hk]
+  have hnext : (Disp.mk (⟨str "weighted_round_robin", l⟩ :: args.map (fun a => (⟨a, l⟩ : Tok))) 0 0).next.2
+      = ⟨⟨str "weighted_round_robin", l⟩ :: args.map (fun a => (⟨a, l⟩ : Tok)), 1, 0⟩ := by
+    simp [Disp.next]
+  rw [if_pos trivial, hnext, hr]
+  rcases hw with h | h
+  · subst h; rfl
+  · cases args with
+    | nil => rfl
+    | cons a rest => simp [h]
+
 /-! ## the draw list: random and least_conn use at most one draw per upstream -/
 
 /-- the model never runs out of draws when given one draw per upstream -/
@@ -814,5 +863,30 @@ example : hashKey .ipHash exReq = some (str "10.0.0.5") ∧ hashKey .clientIpHas
     hashKey (.header (str "host")) exReq = none ∧ hashKey (.header (str "X-None")) exReq = none ∧
     hashKey (.query (str "k")) exReq = some (str "1,2") ∧ hashKey (.query (str "q")) exReq = none ∧
     cookieValue (str "lb") exReq.cookies = some (str "t3") := by decide
+
+-- lb_policy in a Caddyfile: every policy, a chain of fallbacks, and what careless text does
+def exDur : Bytes → Option Int := fun t => if t = str "30s" then some 30000000000 else if t = str "0s" then some 0 else none
+example : parseLbPolicy exDur [⟨str "first", 1⟩] = .ok [.simple 3] ∧
+    parseLbPolicy exDur [⟨str "first", 1⟩, ⟨str "x", 1⟩] = .err ∧
+    parseLbPolicy exDur [⟨str "weighted_round_robin", 1⟩, ⟨str "3", 1⟩, ⟨str "0", 1⟩, ⟨str "+2", 1⟩] = .ok [.wrr [3, 0, 2]] ∧
+    parseLbPolicy exDur [⟨str "weighted_round_robin", 1⟩, ⟨str "3", 1⟩, ⟨str "-1", 1⟩] = .err ∧
+    parseLbPolicy exDur [⟨str "weighted_round_robin", 1⟩] = .err ∧
+    parseLbPolicy exDur [⟨str "random_choose", 1⟩, ⟨str "3", 1⟩] = .ok [.rc 3] ∧
+    parseLbPolicy exDur [⟨str "random_choose", 1⟩] = .err ∧
+    parseLbPolicy exDur [⟨str "no_such_policy", 1⟩] = .err := by decide
+-- header → cookie (name, max_age) → first; the default fallback is left to Provision (no node after `cookie`)
+example : parseLbPolicy exDur
+    [⟨str "header", 1⟩, ⟨str "X-Key", 1⟩, ⟨lbrace, 1⟩, ⟨str "fallback", 2⟩, ⟨str "cookie", 2⟩, ⟨str "lb", 2⟩, ⟨str "s3", 2⟩, ⟨lbrace, 2⟩,
+     ⟨str "max_age", 3⟩, ⟨str "30s", 3⟩, ⟨str "fallback", 4⟩, ⟨str "first", 4⟩, ⟨rbrace, 5⟩, ⟨rbrace, 6⟩]
+    = .ok [.header (str "X-Key"), .cookie (str "lb") (str "s3") 30000000000, .simple 3] ∧
+  parseLbPolicy exDur [⟨str "cookie", 1⟩] = .ok [.cookie [] [] 0] ∧
+  parseLbPolicy exDur [⟨str "cookie", 1⟩, ⟨lbrace, 1⟩, ⟨str "max_age", 2⟩, ⟨str "0s", 2⟩, ⟨rbrace, 3⟩] = .err ∧
+  parseLbPolicy exDur [⟨str "query", 1⟩, ⟨str "k", 1⟩, ⟨lbrace, 1⟩, ⟨str "fallback", 2⟩, ⟨str "first", 2⟩, ⟨str "fallback", 3⟩,
+     ⟨str "random", 3⟩, ⟨rbrace, 4⟩] = .err := by decide
+-- a stray argument after the header field: the block (and the fallback in it) is silently ignored
+example : parseLbPolicy exDur [⟨str "header", 1⟩, ⟨str "X-Key", 1⟩, ⟨str "extra", 1⟩, ⟨lbrace, 1⟩, ⟨str "fallback", 2⟩,
+    ⟨str "first", 2⟩, ⟨rbrace, 3⟩] = .ok [.header (str "X-Key")] := by decide
+-- caddyfile_weights_in_order / bad_weights_rejected: hypotheses inhabited
+example : weightsOf [str "3", str "0", str "+2"] = some [3, 0, 2] ∧ weightsOf [str "3", str "x"] = none := by decide
 
 end CaddyModel.C08
